@@ -141,3 +141,17 @@ func init() {
 		extra: funcMapPhase,
 	})
 }
+
+func init() {
+	register(&propInfo{
+		id:       "C07",
+		patterns: []string{"./config", "./internal"},
+		trusted: []string{
+			"regexp.MatchString(p, s) is a pure function; its error depends on the pattern only; an invalid pattern matches nothing",
+			"packages.Load returns one syntax tree per Go file (axiom loader_syntax); ast.Walk calls Visit on nodes of the file and follows the ast.Visitor protocol (a nil result prunes the subtree)",
+			"go/types accessors (Scope.Lookup, IsInterface, Named.Obj, TypeName.Pkg, ...) are pure functions of their receiver",
+			"mergeConfigs: see C08",
+		},
+		note: "partial: the selection predicate (ShouldGenerateInterface) is proved to be the property's iff verbatim for all flag/regex/name combinations; discovery (NodeVisitor.Visit, ParsePackages), the sub-package filter (subPackages closure, ShouldExcludeSubpkg), one-mock-per-configs-entry (InterfaceConfig.Initialize) and recursive expansion (RootConfig.Initialize inner loop) are proved; the AST walk itself and the expansion loop of Run are covered under C09/C10",
+	})
+}
